@@ -75,6 +75,7 @@ func checkC08(p *Prog, r *Report) {
 	c08Caps(p, r, x)
 	c08Reduction(p, r, x)
 	c08Support(p, r, x)
+	c08UptakeTotal(p, r, x)
 	c08Clip(p, r, "C08.R5")
 	// uptake of a day without demand must be zero, not yesterday's (shared with C01.R5)
 	dayHandover(p, r, "C08.R6")
